@@ -90,6 +90,14 @@ def specs(tier):
     spec = dict(wide)
     spec.update(grammar=[('D1', 1.0)], prince=[('A4', .8), ('D1', .2)], n_stride=9)
     out.append(spec)
+    # e-mail providers and website hosts are word classes of their own in a PRINCE list (the trainer puts E and W into Prince/grammar.txt)
+    ew = dict(t0)
+    ew['E'] = [('gmail.com', .5), ('aol.com', .3), ('web.de', .2)]
+    ew['W'] = [('site.com', .6), ('foo.org', .25), ('x.net', .15)]
+    for pr in ([('A1', .4), ('E', .3), ('W', .2), ('D1', .1)], [('W', .5), ('E', .5)]):
+        spec = dict(ew)
+        spec.update(grammar=[('D1', 1.0)], prince=pr)
+        out.append(spec)
     # rulesets in other encodings: the word file is written in the ruleset's encoding (utf-16 and utf-8-sig start with a byte-order mark - once)
     latin = dict(big)
     latin['A'] = {3: [('\u00e9t\u00e9', .5), ('\u00fcbe', .3), ('abc', .2)]}
